@@ -107,6 +107,52 @@ def preserved(chain, lo=None, hi=None):
     return _merge(kept), _merge(lost)
 
 
+def flow(steps, lo, hi):
+    """Follow source values v in [lo,hi] through a pipeline of steps:
+         ('conv', type)        modular conversion to an integer type
+         ('guard', glo, ghi)   the value must lie in [glo, ghi] to go on; otherwise the pipeline stops there (value dropped)
+    Returns (kept, altered, dropped): intervals of v that arrive unchanged / arrive as a different value (or could not be
+    tracked) / are stopped by a guard.  None if a type is not an integer type."""
+    pieces = [(lo, hi, 0)]
+    dropped = []
+    for st in steps:
+        if st[0] == 'conv':
+            r = irange(st[1])
+            if r is None:
+                return None
+            pieces = _convert(pieces, r)
+        else:
+            glo, ghi = st[1], st[2]
+            nxt = []
+            for vlo, vhi, off in pieces:
+                if off is None:
+                    nxt.append((vlo, vhi, off))
+                    continue
+                a, b = vlo + off, vhi + off
+                il, ih = max(a, glo), min(b, ghi)
+                if il <= ih:
+                    nxt.append((il - off, ih - off, off))
+                    if a < il:
+                        dropped.append((vlo, il - off - 1))
+                    if ih < b:
+                        dropped.append((ih - off + 1, vhi))
+                else:
+                    dropped.append((vlo, vhi))
+            pieces = nxt
+    kept = _merge(sorted((a, b) for a, b, off in pieces if off == 0))
+    altered = _merge(sorted((a, b) for a, b, off in pieces if off != 0))
+    return kept, altered, _merge(dropped)
+
+
+def clip(iv, lo, hi):
+    out = []
+    for a, b in iv:
+        a2, b2 = max(a, lo), min(b, hi)
+        if a2 <= b2:
+            out.append((a2, b2))
+    return out
+
+
 def _merge(iv):
     out = []
     for a, b in sorted(iv):
